@@ -200,6 +200,68 @@ Definition chk_bracket (tab : list (Q * Q)) (scale : Q) (M : Z) (eps delta : Q) 
   then (if Qle_bool pv (hi * (1 + eps) + delta) then 0%nat else 2%nat)
   else 1%nat.
 
+(* ---------- the same tails on dyadic inputs, in integer arithmetic ----------
+   Every f32 is m * 2^e.  With k >= -e for all cells, a cell is the integer
+   z = m * 2^(e+k) over 2^k; likewise a background weight is n over 2^j.  Then
+   P(S >= t) = (sum of the weights n_1..n_M of the words with z_1+..+z_M >= ceil(t * 2^k)) / 2^(j*M)
+   (DistProofs.tail_dyadic_correct); no gcd is ever computed. *)
+
+Definition bsn_me {prec emax : Z} (x : binary_float prec emax) : option (Z * Z) :=
+  match x with
+  | B754_finite s m e _ => Some (cond_Zopp s (Zpos m), e)
+  | B754_zero _ => Some (0, 0)%Z
+  | _ => None
+  end.
+
+Definition f64_me (x : F64.t) : option (Z * Z) := bsn_me x.
+
+(* k = max(0, -e) over the list *)
+Definition common_k (l : list (option (Z * Z))) : Z :=
+  fold_left (fun a o => match o with Some me => Z.max a (- snd me) | None => a end) l 0%Z.
+
+Definition at_k (k : Z) (me : Z * Z) : Z := (fst me * 2 ^ (snd me + k))%Z.
+
+Definition dy_cells (k : Z) (m : list (list (option (Z * Z)))) : list (list (option Z)) :=
+  map (map (option_map (at_k k))) m.
+
+Definition dy_value (k : Z) (z : Z) : Q := inject_Z z / inject_Z (2 ^ k).
+
+Fixpoint word_tableZ (m : list (list (option Z))) (bg : list Z) : list (Z * Z) :=
+  match m with
+  | [] => [(0, 1)%Z]
+  | row :: rest =>
+      let tab := word_tableZ rest bg in
+      flat_map (fun cb => match fst cb with
+                          | Some x =>
+                              if (snd cb =? 0)%Z then []
+                              else map (fun sp => (x + fst sp, snd cb * snd sp)%Z) tab
+                          | None => []
+                          end) (combine row bg)
+  end.
+
+Fixpoint tail_tabZ (tab : list (Z * Z)) (thr : Z) (acc : Z) : Z :=
+  match tab with
+  | [] => acc
+  | (s, p) :: r => tail_tabZ r thr (if (thr <=? s)%Z then (acc + p)%Z else acc)
+  end.
+
+(* P(S >= t) from the integer table *)
+Definition tail_dy (tab : list (Z * Z)) (k j : Z) (M : Z) (t : Q) : Q :=
+  inject_Z (tail_tabZ tab (Qceiling (t * inject_Z (2 ^ k))) 0) / inject_Z (2 ^ (j * M)).
+
+(* 0 = inside, 1 = below the lower bracket, 2 = above the upper bracket *)
+Definition chk_bracket_dy (tab : list (Z * Z)) (k j : Z) (scale : Q) (M : Z) (eps delta : Q) (s pv : Q) : nat :=
+  let d := (inject_Z M / 2 + 1) / scale in
+  let lo := tail_dy tab k j M (s + d) in
+  let hi := tail_dy tab k j M (s - d) in
+  if Qle_bool (lo * (1 - eps) - delta) pv
+  then (if Qle_bool pv (hi * (1 + eps) + delta) then 0%nat else 2%nat)
+  else 1%nat.
+
+(* pvalue(score(p)) <= p for p in (0,1), with the stated tolerances *)
+Definition chk_roundtrip_q (eps delta : Q) (p rt : Q) : bool :=
+  if Qlt_le_dec 0 p then (if Qlt_le_dec p 1 then Qle_bool rt (p * (1 + eps) + delta) else true) else true.
+
 (* |1 - (sum of the background)^M| *)
 Definition mass_defect (bg : list Q) (M : nat) : Q :=
   Qred (Qabs (1 - Qpower (Qred (Qsum bg)) (Z.of_nat M))).
@@ -216,10 +278,22 @@ Definition f64_chk_table := chk_table F64Ops.
 Definition f64_chk_mono := chk_mono F64Ops.
 Definition f64_chk_roundtrip := chk_roundtrip F64Ops.
 
-(* exact scale/offset of the discretisation (stage A only, no table) *)
-Definition q_scale_offset (m : list (list (cell Q))) : res (Q * Q) :=
-  small0 <- small_of QOps m ;;
-  large <- large_of QOps m ;;
-  let small := if eqb_n QOps small0 large then large - 1 else small0 in
-  let offset := inject_Z (Qfloor small) in
-  Ok (inject_Z (Qfloor (1000 / (large - offset))), offset).
+(* the index found by score(p) and whether scale(unscale(i)) = i for it *)
+Definition f64_bsearch (d : dist F64.t) (p : F64.t) : res nat := bsearch F64Ops (d_sf d) p.
+Definition f64_index_exact (d : dist F64.t) (i : Z) : bool :=
+  match d_unscale F64Ops d i with
+  | Ok s => match d_scale F64Ops d s with Ok i' => (i' =? i)%Z | _ => false end
+  | _ => false
+  end.
+
+(* exact (offset, scale) of the discretisation (stage A only, no table) *)
+Definition q_stage_a := stage_a QOps.
+
+(* the symbolic -inf cell and the IEEE value -inf discretise alike (self-check of
+   [disc_ninf] run by the driver on every case) *)
+Definition f64_ninf_agrees (m : list (list (cell F64.t))) : bool :=
+  match stage_a F64Ops m with
+  | Ok (offset, scale) =>
+      (disc_cell F64Ops offset scale CNInf =? disc_cell F64Ops offset scale (CFin F64.ninf))%Z
+  | _ => true
+  end.
